@@ -20,7 +20,7 @@ use tokio::net::{TcpListener, TcpStream, UdpSocket, UnixStream};
 
 const RULE: &str = "one case = one conversation through a real client/server pair on loopback: a scripted local client enters through a fixed TCP remote, a Unix-socket remote, SOCKS4, SOCKS4a, SOCKS5 (IPv4 / IPv6 / domain) or HTTP CONNECT and talks to a scripted target \
 (request/response, target-first half-close, simultaneous transfers of several windows, target closes at once, target refuses, target aborts mid-transfer), payloads position-addressed, write chunking and pauses seeded, 1-16 conversations concurrently; \
-or one UDP exchange: 1-8 local sockets (plain UDP remote and SOCKS5 UDP ASSOCIATE mixed; each SOCKS5 association addresses two different targets datagram by datagram), payloads 0..60000 bytes, target answering 0-3 replies per request. \
+or LocalHalfCloseThenClose / LocalClosesWhileTargetStreams with a 48 MiB reply of which the client reads a prefix before closing) or one UDP exchange: 1-8 local sockets (plain UDP remote and SOCKS5 UDP ASSOCIATE mixed; each SOCKS5 association addresses two different targets datagram by datagram), payloads 0..60000 bytes, target answering 0-3 replies per request. \
 Oracle: each side receives exactly the other side's byte stream (prefix always, complete after a half-close), half-close propagates while the other direction continues, the local connection is closed when the target closes/refuses/aborts; \
 every UDP reply carries the tag of the socket that receives it, comes from the address that socket sent to, is not duplicated, and (SOCKS5) parses with a reference RFC 1928 parser to the unmodified payload. \
 A hang is a violation only with a process-quiescence witness. Non-trivial = the conversation reached the target or the refusal path was exercised";
@@ -45,6 +45,13 @@ enum Kind {
     TargetClosesAtOnce,
     TargetRefuses,
     TargetAborts,
+    /// the local client sends its request, half-closes, reads a prefix of a long reply and closes its socket
+    LocalHalfCloseThenClose,
+    /// the local client reads a prefix of a long reply and closes its socket without half-closing first
+    LocalClosesWhileTargetStreams,
+    /// like LocalHalfCloseThenClose, but the client stops reading for a while before it closes (a paused, then cancelled download):
+    /// every buffer on the way fills up and the server's writer runs out of credit before the close
+    LocalHalfCloseStallThenClose,
 }
 
 #[derive(Clone, Debug)]
@@ -65,6 +72,10 @@ struct TargetObs {
     bad_at: Option<usize>,
     eof: bool,
     err: Option<String>,
+    /// long-reply kinds: bytes the target managed to write, and how its writing ended (None = still blocked in write when the observation window closed)
+    sent: usize,
+    send_end: Option<String>,
+    quiescent_when_stuck: bool,
 }
 
 struct Targets {
@@ -127,7 +138,7 @@ async fn target_conn(mut s: TcpStream, t: Arc<Targets>) {
     match c.kind {
         Kind::RequestResponse => {
             let (g, bad, eof, err) = recv_all(&mut s, kl).await;
-            obs = TargetObs { got: g, bad_at: bad, eof, err };
+            obs = TargetObs { got: g, bad_at: bad, eof, err, ..TargetObs::default() };
             send_chunks(&mut s, kt, c.b, c.chunk, c.pause_every).await.ok();
             s.shutdown().await.ok();
         }
@@ -135,7 +146,7 @@ async fn target_conn(mut s: TcpStream, t: Arc<Targets>) {
             send_chunks(&mut s, kt, c.b, c.chunk, c.pause_every).await.ok();
             s.shutdown().await.ok();
             let (g, bad, eof, err) = recv_all(&mut s, kl).await;
-            obs = TargetObs { got: g, bad_at: bad, eof, err };
+            obs = TargetObs { got: g, bad_at: bad, eof, err, ..TargetObs::default() };
         }
         Kind::Simultaneous => {
             let (mut r, mut w) = s.split();
@@ -145,7 +156,7 @@ async fn target_conn(mut s: TcpStream, t: Arc<Targets>) {
             };
             let recv = recv_all(&mut r, kl);
             let ((), (g, bad, eof, err)) = tokio::join!(send, recv);
-            obs = TargetObs { got: g, bad_at: bad, eof, err };
+            obs = TargetObs { got: g, bad_at: bad, eof, err, ..TargetObs::default() };
         }
         Kind::TargetClosesAtOnce => {
             drop(s);
@@ -157,6 +168,50 @@ async fn target_conn(mut s: TcpStream, t: Arc<Targets>) {
             drop(s);
         }
         Kind::TargetRefuses => {}
+        Kind::LocalHalfCloseThenClose | Kind::LocalClosesWhileTargetStreams | Kind::LocalHalfCloseStallThenClose => {
+            let (mut r, mut w) = s.split();
+            let sent = std::sync::atomic::AtomicUsize::new(0);
+            let send = async {
+                let mut off = 0usize;
+                while off < c.b {
+                    let n = 65536.min(c.b - off);
+                    if let Err(e) = w.write_all(&prf_vec(kt, off as u64, n)).await {
+                        return format!("error:{}", e.kind());
+                    }
+                    off += n;
+                    sent.store(off, std::sync::atomic::Ordering::Relaxed);
+                }
+                w.shutdown().await.ok();
+                "completed".to_string()
+            };
+            let recv = recv_all(&mut r, kl);
+            // witness of "stuck": not one more byte was accepted from the target during the last 10 s of a 25 s window
+            let both = async { tokio::join!(send, recv) };
+            tokio::pin!(both);
+            let mut at_15s = None;
+            let t_start = Instant::now();
+            let res = loop {
+                tokio::select! {
+                    r = &mut both => break Some(r),
+                    () = tokio::time::sleep(Duration::from_millis(250)) => {
+                        let el = t_start.elapsed();
+                        if at_15s.is_none() && el >= Duration::from_secs(15) {
+                            at_15s = Some(sent.load(std::sync::atomic::Ordering::Relaxed));
+                        }
+                        if el >= Duration::from_secs(25) {
+                            break None;
+                        }
+                    }
+                }
+            };
+            match res {
+                Some((how, (g, bad, eof, err))) => obs = TargetObs { got: g, bad_at: bad, eof, err, sent: sent.load(std::sync::atomic::Ordering::Relaxed), send_end: Some(how), quiescent_when_stuck: false },
+                None => {
+                    let now = sent.load(std::sync::atomic::Ordering::Relaxed);
+                    obs = TargetObs { sent: now, send_end: None, quiescent_when_stuck: at_15s == Some(now), ..TargetObs::default() };
+                }
+            }
+        }
     }
     t.obs.lock().unwrap().insert(id, obs);
 }
@@ -325,6 +380,40 @@ async fn local_side(env: Arc<Env>, seed: u64, c: Conv) -> LocalObs {
             s.shutdown().await.ok();
             // wait until the target has seen our EOF
             tokio::time::sleep(Duration::from_millis(30)).await;
+        }
+        Kind::LocalHalfCloseThenClose | Kind::LocalClosesWhileTargetStreams | Kind::LocalHalfCloseStallThenClose => {
+            s.write_all(&idb).await.ok();
+            if let Err(e) = send_chunks(&mut s, kl, c.a, c.chunk, c.pause_every).await {
+                o.write_err = Some(e.kind().to_string());
+            }
+            if c.kind != Kind::LocalClosesWhileTargetStreams {
+                s.shutdown().await.ok();
+            }
+            // read a prefix of the (long) reply, then close the socket with the rest unread
+            let stop_after = c.chunk.max(1) * 37 % 300_000 + 1;
+            let mut buf = vec![0u8; 16384];
+            while o.got < stop_after {
+                match s.read(&mut buf).await {
+                    Ok(0) => {
+                        o.eof = true;
+                        break;
+                    }
+                    Ok(n) => {
+                        if o.bad_at.is_none() {
+                            o.bad_at = prf_mismatch(kt, o.got as u64, &buf[..n]).map(|j| o.got + j);
+                        }
+                        o.got += n;
+                    }
+                    Err(e) => {
+                        o.err = Some(e.kind().to_string());
+                        break;
+                    }
+                }
+            }
+            if c.kind == Kind::LocalHalfCloseStallThenClose {
+                tokio::time::sleep(Duration::from_millis(600)).await;
+            }
+            drop(s);
         }
         Kind::Simultaneous => {
             s.write_all(&idb).await.ok();
@@ -636,7 +725,8 @@ async fn run_once(seed: u64, convs: Vec<Conv>, udp_clients: Vec<(u64, bool, usiz
             let timed_out = lo.is_none();
             let quiescent = if timed_out { tokio::task::spawn_blocking(|| net::process_quiescent(8, Duration::from_millis(60))).await.unwrap_or(false) } else { false };
             // give the target a moment to record its side
-            for _ in 0..40 {
+            let patience = if matches!(c.kind, Kind::LocalHalfCloseThenClose | Kind::LocalClosesWhileTargetStreams | Kind::LocalHalfCloseStallThenClose) { 2800 } else { 40 };
+            for _ in 0..patience {
                 if targets.obs.lock().unwrap().contains_key(&c.id) || matches!(c.kind, Kind::TargetRefuses) {
                     break;
                 }
@@ -669,10 +759,11 @@ async fn run_once(seed: u64, convs: Vec<Conv>, udp_clients: Vec<(u64, bool, usiz
 
 fn gen_convs(rng: &mut Rng64, n: usize, big: usize, base_id: u64) -> Vec<Conv> {
     const ENTRIES: [Entry; 8] = [Entry::Fixed, Entry::Unix, Entry::Socks4, Entry::Socks4a, Entry::Socks5V4, Entry::Socks5V6, Entry::Socks5Domain, Entry::HttpConnect];
-    const KINDS: [Kind; 9] = [Kind::RequestResponse, Kind::RequestResponse, Kind::TargetFirstHalfClose, Kind::TargetFirstHalfClose, Kind::Simultaneous, Kind::Simultaneous, Kind::TargetClosesAtOnce, Kind::TargetRefuses, Kind::TargetAborts];
+    const KINDS: [Kind; 12] = [Kind::RequestResponse, Kind::RequestResponse, Kind::TargetFirstHalfClose, Kind::TargetFirstHalfClose, Kind::Simultaneous, Kind::Simultaneous, Kind::TargetClosesAtOnce, Kind::TargetRefuses, Kind::TargetAborts,
+        Kind::LocalHalfCloseThenClose, Kind::LocalClosesWhileTargetStreams, Kind::LocalHalfCloseStallThenClose];
     (0..n).map(|i| {
         let entry = ENTRIES[(i + rng.below(8) as usize) % 8];
-        let mut kind = KINDS[rng.below(9) as usize];
+        let mut kind = KINDS[rng.below(12) as usize];
         let sizes = [0usize, 1, 2, 100, 8192, 8193, 70_000, 600_000];
         let (mut a, mut b) = (*rng.pick(&sizes), *rng.pick(&sizes));
         if i < big {
@@ -681,7 +772,19 @@ fn gen_convs(rng: &mut Rng64, n: usize, big: usize, base_id: u64) -> Vec<Conv> {
             a = rng.range(5, 9) as usize * 1024 * 1024;
             b = rng.range(5, 9) as usize * 1024 * 1024;
         }
-        Conv { id: base_id + i as u64, entry, kind, a, b, chunk: *rng.pick(&[1usize, 7, 1000, 8192, 65536]).max(&(a / 4000 + 1)), pause_every: *rng.pick(&[0usize, 0, 3, 50]) }
+        if matches!(kind, Kind::LocalHalfCloseThenClose | Kind::LocalClosesWhileTargetStreams | Kind::LocalHalfCloseStallThenClose) {
+            // a reply of many windows: the target is still writing when the local client goes away
+            a = a.min(70_000);
+            b = 48 * 1024 * 1024;
+        }
+        // bounded cost: at most 4000 writes and at most 1500 one-millisecond pauses per direction (both directions count)
+        let pause_every = *rng.pick(&[0usize, 0, 3, 50]);
+        let most = a.max(if matches!(kind, Kind::LocalHalfCloseThenClose | Kind::LocalClosesWhileTargetStreams | Kind::LocalHalfCloseStallThenClose) { 0 } else { b });
+        let mut chunk = *rng.pick(&[1usize, 7, 1000, 8192, 65536]).max(&(most / 4000 + 1));
+        if pause_every > 0 {
+            chunk = chunk.max(most / (pause_every * 1500) + 1);
+        }
+        Conv { id: base_id + i as u64, entry, kind, a, b, chunk, pause_every }
     }).collect()
 }
 
@@ -733,6 +836,25 @@ fn judge(st: &mut Stats, seed: u64, out: &RunOut) {
                 }
                 if c.a + c.b > 8 * 1024 * 1024 {
                     st.target("multi_window_transfers", 1);
+                }
+            }
+            Kind::LocalHalfCloseThenClose | Kind::LocalClosesWhileTargetStreams | Kind::LocalHalfCloseStallThenClose => {
+                st.target("local_close_with_reply_in_flight", 1);
+                let Some(to) = to else {
+                    st.inconclusive.push(format!("c01: target observation missing for {tag}"));
+                    continue;
+                };
+                if lo.got > to.sent.max(c.b) {
+                    st.violation(Violation { signature: format!("too-much-data|{tag}"), detail: format!("the local client received {} bytes, the target sent {}", lo.got, to.sent), replay: replay() });
+                }
+                match &to.send_end {
+                    Some(_) => st.count("target_released_after_local_close", 1),
+                    None if to.quiescent_when_stuck => st.violation(Violation {
+                        signature: format!("target-left-hanging|{:?}", c.kind),
+                        detail: format!("the local client closed its connection after reading {} bytes; 25 s later the target was still blocked in write() after {} of {} bytes, not one byte more than 10 s earlier: the target's connection is never closed (a direct connection would have been reset)", lo.got, to.sent, c.b),
+                        replay: replay(),
+                    }),
+                    None => st.inconclusive.push(format!("c01: {tag}: target still writing after 25 s but making progress")),
                 }
             }
             Kind::TargetClosesAtOnce | Kind::TargetRefuses | Kind::TargetAborts => {
